@@ -241,7 +241,7 @@ func TestC06(t *testing.T) {
 			gen.Sweep(b, func(x []byte) bool {
 				r.Begin("sweep", x)
 				if err := core.Catch(func() error { return eval("sweep", x) }); err != nil {
-					ferr, bad = err, append([]byte(nil), x...)
+					ferr, bad = err, keepSpare(x)
 					return false
 				}
 				return true
